@@ -17,7 +17,7 @@ import (
 	"github.com/formancehq/ledger/verifharness/stats"
 )
 
-const ruleC07F = "fault enumeration: for every generated write (create by postings, revert, 4 metadata operations, insert schema; as a single request or as an atomic bulk of 1-3 elements; on an 'initializing' or an in-use ledger, fresh or re-used controller chain) the operation is first attempted with a database failure injected at SQL statement k = 1, 2, 3, ... (once before the statement runs, once after its effect has been applied inside the transaction) and then at COMMIT j = 1, 2, ..., until a position past the end lets it complete; after every attempt that reports an error all tables (bucket and _system, committed rows) must be identical to the snapshot taken before it and the Listener must have received nothing; non-trivial = operation with >= 4 enumerated positions of which >= 1 after an effect, that finally commits; distinct = by operation + pre-state history"
+const ruleC07F = "fault enumeration: for every generated write (create by postings, revert, 4 metadata operations, insert schema; as a single request or as an atomic bulk of 1-3 elements; on an 'initializing' or an in-use ledger, fresh or re-used controller chain) the operation is first attempted with a database failure injected at SQL statement k = 1, 2, 3, ... (once before the statement runs, once after its effect has been applied inside the transaction) and then at COMMIT j = 1, 2, ..., until a position past the end lets it complete; a third dimension injects a deadlock error (retryable) at statement k of writes and dry runs, so that the retry path replays them; after every attempt that reports an error all tables (bucket and _system, committed rows) must be identical to the snapshot taken before it and the Listener must have received nothing; non-trivial = operation with >= 4 enumerated positions of which >= 1 after an effect, that finally commits; distinct = by operation + pre-state history"
 
 // runOps issues the operation (single write or atomic bulk) and returns the error of every part.
 func (r *evRun) runOps(l *c31Ledger, mode string, ops []evOp) []error {
@@ -114,6 +114,47 @@ func (r *evRun) enumerate(t interface{ Fatalf(string, ...any) }, l *c31Ledger, m
 				break
 			}
 		}
+	case "deadlock":
+		// a retryable failure at statement k: the operation is replayed by the retry path and must then behave
+		// exactly like a first attempt - in particular a dry run must still leave nothing behind
+		dry := mode == "single" && ops[0].DryRun
+		for k := 1; k <= 60; k++ {
+			before := sim.Dump()
+			evBefore := len(r.lis.events)
+			var errs []error
+			tr := withFault(sim, faultPlan{Kind: "deadlock", At: k}, func() { errs = r.runOps(l, mode, ops) })
+			for _, e := range errs {
+				if e != nil {
+					r.w.checkErr(e)
+				}
+			}
+			if !tr.Fired {
+				fs.completed = anyErr(errs) == nil
+				if dry {
+					fs.completed = false
+				}
+				break
+			}
+			fs.positions++
+			err := anyErr(errs)
+			if err != nil || dry {
+				fs.afterEffect++
+				if after := sim.Dump(); !reflect.DeepEqual(before, after) {
+					what := "failed"
+					if err == nil {
+						what = "was a dry run replayed after a deadlock"
+					}
+					t.Fatalf("VIOLATION[C07]: %s %s (deadlock injected at statement %d, outcome %v) but left a trace\n%s\nhistory:\n  %s", desc, what, k, err, dumpDiff(before, after), strings.Join(r.hist, "\n  "))
+				}
+				if n := len(r.lis.events) - evBefore; n != 0 {
+					t.Fatalf("VIOLATION[C07]: %s (deadlock injected at statement %d, outcome %v) published %d event(s) without a durable write\nhistory:\n  %s", desc, k, err, n, strings.Join(r.hist, "\n  "))
+				}
+				continue
+			}
+			// a real write went through on the retry: the history has advanced, stop enumerating this operation
+			fs.completed = true
+			break
+		}
 	case "commit":
 		for j := 1; j <= 6; j++ {
 			fired, failed := attempt(faultPlan{Kind: "commit", At: j})
@@ -164,6 +205,7 @@ func TestC07Faults(t *testing.T) {
 			var ops []evOp
 			if mode == "single" {
 				ops = []evOp{genEvOp(rt, r.w.Env.Sim, l.bucket, l.name, true, false)}
+				ops[0].DryRun = rapid.IntRange(0, 3).Draw(rt, "dryRun") == 0
 			} else {
 				k := rapid.IntRange(1, 3).Draw(rt, "bulkSize")
 				for j := 0; j < k; j++ {
@@ -173,7 +215,10 @@ func TestC07Faults(t *testing.T) {
 			for j := range ops {
 				ops[j].IK = "" // every attempt must be a fresh execution
 			}
-			dim := rapid.SampledFrom([]string{"statement", "statement", "commit"}).Draw(rt, "dimension")
+			dim := rapid.SampledFrom([]string{"statement", "statement", "commit", "deadlock"}).Draw(rt, "dimension")
+			if ops[0].DryRun {
+				dim = "deadlock" // the other dimensions need an operation that can eventually commit
+			}
 			fs := r.enumerate(rt, l, mode, ops, dim)
 			total.positions += fs.positions
 			total.afterEffect += fs.afterEffect
